@@ -22,6 +22,16 @@ table), so the text is read as follows:
   that server returns exactly the address the answer carried, no call returns an address no answer
   carried, none stays blocked past its deadline or times out before it (`uni_answer`).
 
+Two readings, selected by the flag `strict` of the history state:
+
+* `strict = true` (the state `UState.init`; the theorems of `IceProps.C12` are about this one): all clauses above;
+* `strict = false` (what `./check C12` runs by default): the LETTER of C12 — the base clauses on EVERY datagram,
+  whether the layer took it or not (every datagram reaches the connection THE RULE names, nothing owed is
+  dropped) — plus the clauses about the layer doing its job (`uni_answer`: the answer is taken and recorded
+  under its source, blocked calls are released with the recorded address, deadlines).  `uni_consume` (what else
+  the layer takes) and `uni_both` are not verdicts there: the unchanged code trips them (observations U1/U2,
+  counted by the harness as statistics).
+
 Only the vocabulary is shared with the models; the monitor keeps its own history (requests outstanding per
 transport address, calls in flight, the last answer per transport address) keyed by the spec's own
 `endpoint`.
@@ -33,6 +43,8 @@ open IceSpec.C12 (SState EP endpoint fupd)
 
 structure UState where
   base : SState
+  /-- strict reading (see above) -/
+  strict : Bool := true
   now : Nat
   /-- the latest discovery request sent to the transport address is unanswered -/
   outstanding : EP → Bool
@@ -45,7 +57,7 @@ structure UState where
   wdone : Nat → Bool
 
 def UState.init : UState :=
-  { base := SState.init, now := 0, outstanding := fun _ => false, lastVal := fun _ => none, nw := 0,
+  { base := SState.init, strict := true, now := 0, outstanding := fun _ => false, lastVal := fun _ => none, nw := 0,
     wsrv := fun _ => endpoint default, wdeadline := fun _ => 0, wdone := fun _ => true }
 
 inductive Verdict where
@@ -139,29 +151,46 @@ def unansweredV (s : UState) (e : EP) : Verdict :=
   | some i => .uni (clAnswer ++ "x" ++ toString i ++ " is still blocked although its server's answer was taken")
   | none => .ok
 
+/-- the answer is recorded under its source with its value -/
+def recordedV (src : Addr) (v : Nat) (key : Addr) (v' : Nat) : Verdict :=
+  if endpoint key ≠ endpoint src then .uni (clConsume ++ "the answer was recorded under another server address")
+  else if v' ≠ v then .uni (clAnswer ++ "the recorded mapped address differs from the one in the answer")
+  else .ok
+
 /-- verdict on one inbound datagram (before the returned calls are looked at) -/
 def inboundV (s : UState) (src : Addr) (k : Kind) (x : XView) (o : Out) (fx : Fx) : Verdict :=
   let consumed := fx.learned.isSome || !fx.woke.isEmpty
   let bv := IceSpec.C12.inboundVerdict s.base src k o
   match answerOf s src k x with
   | none =>
-    if consumed then
-      .uni (clConsume ++ "the universal layer took a datagram that is not the answer to a pending discovery request of its own ("
-            ++ whyNot s src k x ++ ")")
-    else ofBase bv
+    if s.strict then
+      if consumed then
+        .uni (clConsume ++ "the universal layer took a datagram that is not the answer to a pending discovery request of its own ("
+              ++ whyNot s src k x ++ ")")
+      else ofBase bv
+    else
+      -- the letter of C12: dispatched by THE RULE whatever the layer does with it
+      (ofBase bv).orElse
+        (match fx.learned with
+         | some (key, _) =>
+           if endpoint key ≠ endpoint src then .uni (clConsume ++ "a mapped address was recorded under another address than the datagram's source")
+           else .ok
+         | none => .ok)
   | some v =>
     match fx.learned with
     | none => .uni (clAnswer ++ "the answer to the pending discovery request was not taken")
     | some (key, v') =>
-      if endpoint key ≠ endpoint src then .uni (clConsume ++ "the answer was recorded under another server address")
-      else if v' ≠ v then .uni (clAnswer ++ "the recorded mapped address differs from the one in the answer")
-      else match o with
-        | .dropped => .ok
-        | .delivered c =>
-          match bv with
-          | some w => .base w
-          | none => .uni (clBoth ++ "the answer to the layer's own discovery request was also delivered to c" ++ toString c)
-        | _ => ofBase bv
+      if s.strict then
+        if endpoint key ≠ endpoint src then .uni (clConsume ++ "the answer was recorded under another server address")
+        else if v' ≠ v then .uni (clAnswer ++ "the recorded mapped address differs from the one in the answer")
+        else match o with
+          | .dropped => .ok
+          | .delivered c =>
+            match bv with
+            | some w => .base w
+            | none => .uni (clBoth ++ "the answer to the layer's own discovery request was also delivered to c" ++ toString c)
+          | _ => ofBase bv
+      else (ofBase bv).orElse (recordedV src v key v')
 
 /-- fx of an operation that is not a datagram: the table does not change -/
 def noLearnV (fx : Fx) : Verdict :=
@@ -171,15 +200,22 @@ def noLearnV (fx : Fx) : Verdict :=
 def step (s : UState) : UOp → UOut → UState × Verdict
   | .inbound src k x pid, { main := .base o, fx := fx } =>
     let v0 := inboundV s src k x o fx
-    let taken : Option Nat :=
+    let legit : Option Nat :=
       match answerOf s src k x, fx.learned with
       | some v, some (key, v') => if endpoint key = endpoint src ∧ v' = v then some v else none
       | _, _ => none
+    -- what the table now holds for this source: strictly only an answer; by the letter whatever was recorded
+    let taken : Option Nat :=
+      if s.strict then legit
+      else match fx.learned with
+        | some (key, v') => if endpoint key = endpoint src then some v' else none
+        | none => none
     let e := endpoint src
     let s1 : UState := { s with base := (IceSpec.C12.step s.base (.inbound src k pid) o).1 }
     let s2 : UState :=
       match taken with
-      | some v => { s1 with outstanding := fupd s1.outstanding e false, lastVal := fupd s1.lastVal e (some v) }
+      | some v => { s1 with outstanding := if legit.isSome then fupd s1.outstanding e false else s1.outstanding,
+                            lastVal := fupd s1.lastVal e (some v) }
       | none => s1
     let (s3, v1) := wokeV s2 fx.woke
     let v2 := match taken with
